@@ -35,6 +35,9 @@ class CFG:
         except Exception:
             self.bool_aliases = {}
         self._alias_depth = 0
+        try: self.adjacent = A.adjacent_aliases(body) if isinstance(body, dict) else {}
+        except Exception: self.adjacent = {}
+        self._local = []
         start = self._build(body, self.exit_return, Ctx())
         self._link(self.entry, start)
         self._finish()
@@ -76,13 +79,15 @@ class CFG:
         if k == 'CallExpr' and A.callee_name(s) == '__builtin_expect' and s.get('args'):
             return self._cond(A.strip(s['args'][0], casts=True), t, f)
         sc = A.strip(s, casts=True)
-        if sc is not None and sc.get('k') == 'DeclRefExpr' and sc.get('id') in self.bool_aliases and self._alias_depth < 4:
-            init = A.strip(self.bool_aliases[sc['id']], casts=True)
+        local = self._local[-1] if self._local else {}
+        if sc is not None and sc.get('k') == 'DeclRefExpr' and (sc.get('id') in self.bool_aliases or sc.get('id') in local) and self._alias_depth < 4:
+            src = local if sc.get('id') in local else self.bool_aliases
+            init = A.strip(src[sc['id']], casts=True)
             # only genuine conditions (comparisons, logical operators, negations, boolean calls), not plain values
             if init is not None and (init.get('k') in ('BinaryOperator', 'UnaryOperator', 'CXXOperatorCallExpr', 'CXXMemberCallExpr', 'CallExpr') ):
                 if not (init.get('k') == 'BinaryOperator' and init.get('op') not in ('&&', '||', '<', '>', '<=', '>=', '==', '!=')):
                     self._alias_depth += 1
-                    try: return self._cond(self.bool_aliases[sc['id']], t, f)
+                    try: return self._cond(src[sc['id']], t, f)
                     finally: self._alias_depth -= 1
         n = self._new('cond', ast=s)
         c = A.const(s) if self.prune else None
@@ -117,7 +122,9 @@ class CFG:
         if k == 'IfStmt':
             t = self._build(s.get('then'), nxt, ctx)
             f = self._build(s.get('else'), nxt, ctx)
-            c = self._cond(s.get('cond'), t, f)
+            self._local.append(self.adjacent.get(id(s), {}))
+            try: c = self._cond(s.get('cond'), t, f)
+            finally: self._local.pop()
             if s.get('var') is not None:
                 v = self._new('stmt', ast=s['var']); self._link(v, c); c = v
             if s.get('init') is not None:
